@@ -417,11 +417,13 @@ def build_case(rng, g, part, kinds=('$', '><'), render_opts=None, shared=None):
                 cutcount=cutcount, tokens=tokens)
 
 
-def base_to_ast(rng, base, start=None, trailing=False):
+def base_to_ast(rng, base, start=None, trailing=None):
     """random DFS spelling of a connected base graph as a G-grammar AST (never ends a branch in a
     nested branch unless trailing=True); -> (ast, node order)"""
     from . import grammar as G
     start = start if start is not None else rng.choice(list(base.nodes))
+    if trailing is None:
+        trailing = rng.random() < 0.25
     seen = {start}
     kids, tree = {}, set()
 
